@@ -82,14 +82,22 @@ def main():
         rep.part_results = results
         confirm = getattr(mod, "confirm", None)
         seen_keys = set()
-        for p, r in zip(parts, results):
-            if r.get("status") == "counterexample":
-                try:
-                    rep.handle_counterexample(p, r, confirm)
-                except Exception as e:  # noqa
-                    import traceback
-                    rep.harness_errors.append(f"{p.label}: counterexample triage crashed: {type(e).__name__}: {e} "
-                                              + traceback.format_exc()[-600:])
+        import concurrent.futures as cf
+
+        def triage(pr):
+            p, r = pr
+            try:
+                rep.handle_counterexample(p, r, confirm)
+            except Exception as e:  # noqa
+                import traceback
+                rep.harness_errors.append(f"{p.label}: counterexample triage crashed: {type(e).__name__}: {e} "
+                                          + traceback.format_exc()[-600:])
+
+        ces = [(p, r) for p, r in zip(parts, results) if r.get("status") == "counterexample"]
+        # props whose confirm() works in-process on shared module state (history search) are triaged serially
+        workers = 1 if getattr(mod, "SERIAL_TRIAGE", False) else 8
+        with cf.ThreadPoolExecutor(max_workers=workers) as ex:
+            list(ex.map(triage, ces))
         if hasattr(mod, "samples"):
             rep.samples = mod.samples(parts, results)
     sys.exit(rep.finish())
